@@ -11,5 +11,8 @@ CHECKS = {
  'C11': dict(text='Part (a) only: for every range start, length <= RANGE and min block size <= MINMAX and each pool size 1..16, thread_pool::blocks yields non-empty, contiguous, disjoint blocks covering the range, at most pool-size many, without division by zero. '
                   'Parts (b) protocol/deadlock and (c) memory-model race are not decided by this check (see DESIGN.md).',
              note=NOTE, technique=TECH),
+ 'C13': dict(text='Part (i) only: for EVERY binary64 slope exponent n, set_slope_exp takes the linear (direct solve) path exactly when |n-1| <= DBL_EPSILON and rejects every other exponent on multiple-direction graphs (this is also the rejection clause of C12). '
+                  'Parts (ii)/(iii) (residual of the discrete equation) are not decided: the binary64 equivalence queries gave no verdict (cvc5/SAT, 200-500 s, 3-node chain).',
+             note=NOTE, technique=TECH),
 }
 NOT_APPLICABLE = {}
